@@ -53,7 +53,7 @@ PROPS = {
     "C03": {
         "level": "exploration",
         "technique": "runtime monitor: by-construction oracle, bounded-exhaustive enumeration of delimited patterns x legal fillings x 8 configs, plus RoutePatternMatch-vs-dispatch differential",
-        "level_text": "All delimited patterns of up to 4 (quick) / 6 (thorough) items over a 10-item alphabet, all legal fillings over a 6-value alphabet and the 8 routing configurations are dispatched through a real app (so the 3-byte index is in the loop); match and captured values are known by construction; case, trailing-slash and percent variants and RoutePatternMatch are compared with the dispatch decision. Exhaustive for the bounded space, sampled beyond it (random patterns up to 10 items).",
+        "level_text": "All delimited patterns of up to 5 (quick) / 6 (thorough) items over a 10-item alphabet, all legal fillings over a 6-value alphabet and the 8 routing configurations are dispatched through a real app (so the 3-byte index is in the loop); match and captured values are known by construction; case, trailing-slash and percent variants and RoutePatternMatch are compared with the dispatch decision. Exhaustive for the bounded space, sampled beyond it (random patterns up to 10 items).",
         "level_note": TRUSTED + "; the legality side-condition of the statement is implemented conservatively (overlapping and case-folded occurrences of a following literal also exclude a filling).",
         "rule": "enumerated: every item string in the delimited class x every legal filling x 8 configs; random: patterns of 3-10 items x 6 fillings; non-trivial = pattern with >=1 parameter; distinct by (pattern, path, config)",
         "exhaustive_stat": "route.complete.enum_space_complete",
